@@ -34,6 +34,10 @@ CLAIMED = {
          "C19_sqrt_tab (256 entries within 1 of 65536*sqrt(i/256+31/2^18)) by kernel evaluation (decide +kernel) of Nat-only Taylor enclosure checkers with proved soundness; "
          "C19_sin_aprox / C19_cos_aprox for EVERY int32 d (index in bounds, result = entry of d mod 360, within 2 ulp of sin/cos(d deg)); sqrt_aprox edge cases. "
          "PARTIAL: the 2% bound of sqrt_aprox on [1,2^37) and the 1.25 bound of atan_index_aprox are stated (C19_*_full) and carried by exhaustive/cell-boundary correspondence + oracle only.", "kernel evaluation over regenerated tables + Mathlib enclosures; omega for index reduction; correspondence"),
+ "C10": ("proof", "C10_acc: for EVERY raw v in [-pi, pi] (411 775 values) except the library's pole, the result is within 2.5 ulp*(1+tan^2 x) of Real.tan x and cos x != 0 - analytic sign/range "
+         "normalisation (omega), kernel-checked enumeration (204 decide+kernel chunks) of the normalised kernel at all 205 887 arguments with the division-free criterion |T cos x - sin x| |cos x| <= 2.5 ulp against "
+         "Taylor enclosures of Real.sin/Real.cos at the true angle (second quadrant through pi - x with a 40-bit enclosure of pi), edge case |x| = phi analytic. "
+         "C10_odd, C10_period (x,k >= 0), C10_nan_iff for every |v| < 2^62. Tie: exhaustive correspondence of tan on [-pi-2, pi+2] raw + random/pole arguments up to 2^62.", "reflective kernel enumeration + Mathlib enclosures + omega; exhaustive correspondence"),
 }
 NA_DEFAULT = "check under construction in this round (the framework is built property by property); not a claim that the technique cannot apply"
 
